@@ -963,13 +963,17 @@ ssize_t qlisttbl_load(qlisttbl_t *tbl, const char *filepath, char sepchar,
     char *str = qfile_load(filepath, NULL);
     if (str == NULL) return -1;
 
-    // parse
-    qlisttbl_lock(tbl);
-    // entries are always appended at the bottom to keep the saved order.
-    bool inserttop = tbl->inserttop;
-    tbl->inserttop = false;
+    // Parse the file into a scratch table first, so that the given table is
+    // only touched once nothing can fail any more. If we run out of memory
+    // in the middle of the file, the table is left exactly as it was.
+    qlisttbl_t *loaded = qlisttbl(0);
+    if (loaded == NULL) {
+        free(str);
+        return -1;
+    }
+
     char *offset, *buf;
-    int cnt = 0;
+    bool failed = false;
     for (offset = str; *offset != '\0'; ) {
         // get one line into buf
         for (buf = offset; *offset != '\n' && *offset != '\0'; offset++);
@@ -988,26 +992,48 @@ ssize_t qlisttbl_load(qlisttbl_t *tbl, const char *filepath, char sepchar,
         if (data == NULL || name == NULL) {
             // out of memory, stop here and report the failure.
             free(data);
-            cnt = -1;
+            failed = true;
             break;
         }
         qstrtrim(data);
         qstrtrim(name);
         if (decode == true) qurl_decode(data);
 
-        // add to the table.
-        bool added = qlisttbl_put(tbl, name, data, strlen(data) + 1);
+        // collect
+        bool added = qlisttbl_put(loaded, name, data, strlen(data) + 1);
         free(name);
         free(data);
         if (added == false) {
-            cnt = -1;
+            failed = true;
             break;
         }
+    }
+    free(str);
+
+    if (failed == true) {
+        qlisttbl_free(loaded);
+        errno = ENOMEM;
+        return -1;
+    }
+
+    // Move the collected entries over, no memory is allocated from here on.
+    // Entries are always appended at the bottom to keep the saved order.
+    qlisttbl_lock(tbl);
+    int cnt = 0;
+    qlisttbl_obj_t *obj, *next;
+    for (obj = loaded->first; obj != NULL; obj = next) {
+        next = obj->next;
+        if (tbl->unique == true) qlisttbl_remove(tbl, obj->name);
+        obj->prev = tbl->last;
+        obj->next = NULL;
+        insertobj(tbl, obj);
         cnt++;
     }
-    tbl->inserttop = inserttop;
+    loaded->first = NULL;
+    loaded->last = NULL;
+    loaded->num = 0;
     qlisttbl_unlock(tbl);
-    free(str);
+    qlisttbl_free(loaded);
 
     return cnt;
 }
